@@ -545,7 +545,15 @@ def operand_params(facts, b):
         if not p.get("pat"):
             continue
         ty = p["ty"]
-        name = p["pat"].get("name", "p%d" % i)
+        name = p["pat"].get("name")
+        if name is None:
+            # a parameter destructured in the signature (`(a, a_transpose): (&Array, bool)`): named after its array-typed binding
+            for v, _, t2, _ in F.pat_bindings(p["pat"]):
+                if (t2 or "").replace("&", "").strip() == ARRAY:
+                    name = v.split("#")[0]
+                    break
+        if name is None:
+            name = "p%d" % i
         if ty in ("&" + ARRAY, ARRAY, "&&" + ARRAY):
             out.append((name, "ref", p))
         elif ty == "core::option::Option<&%s>" % ARRAY:
@@ -617,6 +625,7 @@ def evaluate_constructor(facts, b, max_vars=10, primitive=False):
                 match = [o for o in ops if o[2] is p]
                 if match:
                     kind = match[0][1]
+                    name = match[0][0]
                     if kind == "ref":
                         argvals.append(Ref(name))
                     elif kind == "opt":
